@@ -198,6 +198,21 @@ KNOWN_PURE = {
 }
 
 
+# in-memory accessors of values a stat already produced, of permission/file-type/time values and of directory entries'
+# names: they perform no system call
+import re as _re
+PURE_ACCESSOR = _re.compile(
+    r'^(<std::fs::Metadata as std::os::(unix|linux)::fs::MetadataExt>::\w+|std::os::(unix|linux)::fs::MetadataExt::\w+|'
+    r'std::fs::Metadata::\w+|std::fs::FileType::\w+|<std::fs::FileType as std::os::unix::fs::FileTypeExt>::\w+|'
+    r'std::fs::Permissions::\w+|<std::fs::Permissions as std::os::unix::fs::PermissionsExt>::\w+|'
+    r'std::os::unix::fs::PermissionsExt::\w+|std::fs::FileTimes::\w+|std::fs::OpenOptions::(new|read|write|append|create|create_new|truncate)|'
+    r'<std::fs::OpenOptions as std::os::unix::fs::OpenOptionsExt>::(mode|custom_flags)|'
+    r'<std::fs::DirEntry as std::os::unix::fs::DirEntryExt>::ino|'
+    r'<std::fs::\w+ as std::(fmt::Debug|clone::Clone|cmp::PartialEq|cmp::Eq|hash::Hash)>::\w+|'
+    r'<filetime::FileTime as std::\w+::\w+>::\w+|filetime::FileTime::(zero|seconds|unix_seconds|nanoseconds|from_unix_time|from_system_time|'
+    r'from_last_modification_time|from_last_access_time|from_creation_time))$')
+
+
 def classify(np):
     """-> (class, roles) ; class None = pure/unknown-harmless ; 'UNCLASSIFIED' for unknown sensitive callees."""
     e = P.get(np)
@@ -205,7 +220,7 @@ def classify(np):
         if e['cls'] == 'pure':
             return None, e
         return e['cls'], e
-    if np in KNOWN_PURE:
+    if np in KNOWN_PURE or PURE_ACCESSOR.match(np):
         return None, {}
     if np.startswith(SENSITIVE_PREFIXES):
         return 'UNCLASSIFIED', {}
